@@ -382,7 +382,8 @@ LEVEL_TEXT = {
  'C19': 'Partial proof: decision logic of VerifySignature over ideal ECDSA / Keccak (one key, one message); injectivity of the EIP-712 rendering proved for an ideal hash (C19_document_injective: equal renderings => equal chain id, the same msgs array and the same other members, objects as maps) under hypotheses that the driver evaluates on every real sign document; the rendering itself is an executable Lean model (with Keccak-256 in Lean) compared digest for digest with the Go code. Unforgeability, collision resistance and BIP-32 conformance are assumptions / tests.',
  'C20': 'Partial proof: isolation of refused transactions and totality of end-of-block processing in the models, invariant proof of the event system channel protocol for every schedule (with regenerated lock-order facts and schedule replay on the real goroutines). Crash-freedom of decoding and execution for arbitrary bytes is explored (E-crash), not proved.',
 }
-HOOK_COMMITS = ['6892cbf4753434ae03c9f54a2d1a2dc6d5dfb558', '48ae13975a8de05cf1d0c8f44e7e45cc6a4855be']
+HOOK_COMMITS = ['6892cbf4753434ae03c9f54a2d1a2dc6d5dfb558', '48ae13975a8de05cf1d0c8f44e7e45cc6a4855be',
+                '13b05b91311645d4d4befea441819c79cc9804c4']
 
 
 def engine_index():
